@@ -227,12 +227,20 @@ static void probe(unsigned pf, unsigned ps, unsigned pc, struct bytebuf *granted
 		}
 	}
 	/* set / call: accepted for routing = delivered to the owner */
-	for (int e = 0; e < NELEMS; e++) {
+	for (int e2 = 0; e2 < 2 * NELEMS; e2++) {
+		/* every element twice: as a request with an id and as a notification without one (nobody is told about a refusal then - the
+		 * refusal must happen all the same) */
+		int e = e2 % NELEMS;
+		bool with_id = e2 < NELEMS;
 		int fo = clients[O].nmsgs;
+		char idm[24] = "";
+		if (with_id) {
+			snprintf(idm, sizeof(idm), "\"id\":\"p%c%d\",", ELEMS[e].method ? 'c' : 's', e);
+		}
 		if (ELEMS[e].method) {
-			jx_sendf(P, "{\"id\":\"pc%d\",\"method\":\"call\",\"params\":{\"path\":\"%s\",\"args\":[%d]}}", e, ELEMS[e].path, e);
+			jx_sendf(P, "{%s\"method\":\"call\",\"params\":{\"path\":\"%s\",\"args\":[%d]}}", idm, ELEMS[e].path, e);
 		} else {
-			jx_sendf(P, "{\"id\":\"ps%d\",\"method\":\"set\",\"params\":{\"path\":\"%s\",\"value\":%d}}", e, ELEMS[e].path, 100 + e);
+			jx_sendf(P, "{%s\"method\":\"set\",\"params\":{\"path\":\"%s\",\"value\":%d}}", idm, ELEMS[e].path, 100 + e);
 		}
 		jx_settle();
 		bool routed = false;
@@ -247,11 +255,11 @@ static void probe(unsigned pf, unsigned ps, unsigned pc, struct bytebuf *granted
 		unsigned have = ELEMS[e].method ? pc : ps;
 		if (routed && (need & have) == 0) {
 			char key[160];
-			snprintf(key, sizeof(key), "%s-routed-without-group:%s", ELEMS[e].method ? "call" : "set", ELEMS[e].access_json ? "declared" : "undeclared");
+			snprintf(key, sizeof(key), "%s-routed-without-group:%s%s", ELEMS[e].method ? "call" : "set", ELEMS[e].access_json ? "declared" : "undeclared", with_id ? "" : ":request-without-id");
 			fail8(key, "%s: %s on %s (groups 0x%x) was accepted and routed to the owner although the peer's %s groups are 0x%x", phase, ELEMS[e].method ? "call" : "set", ELEMS[e].path, need, ELEMS[e].method ? "call" : "set", have);
 		}
 		if (routed) {
-			bb_printf(granted, "%s may %s %s\n", phase, ELEMS[e].method ? "call" : "set", ELEMS[e].path);
+			bb_printf(granted, "%s may %s %s%s\n", phase, ELEMS[e].method ? "call" : "set", ELEMS[e].path, with_id ? "" : " (without id)");
 			xp_count("grants_set_call", 1);
 		}
 	}
@@ -584,6 +592,6 @@ const struct driver drv_c08 = {
     .name = "c08",
     .property = "C08",
     .run = run,
-    .rule = "section 0: credential file with 6 users (group sets over g1..g3, auth objects that omit keys, an admin, a user without groups); 15 elements declaring fetch/set/call groups {none, g1, g2, g1+g2, mixed fetch/set, g3, an undefined group, fetch only, call only}; every sequence up to the depth bound of 10 authenticate actions (right, wrong password, another user's password, unknown user, six users) x 3 transports x 5 fill bytes of fresh heap memory x {probe suite only at the end, also before the last action}; probe suite = fetch all + get all + the owner adding / changing / removing four further elements while the fetch is active + set every state + call every method; oracle: everything delivered / routed is covered by the groups of the last successful authentication (none if there was none), wrong credentials are refused, sequences with failing attempts grant exactly what the twin without them grants, password markers occur in no output byte and no log line; section 1: files with 30..33 groups x user group x element group over {0,1,15,29,30,31} x transport (bit 31 and beyond); section 2: add from 16 connection origins (incl. five IPv6 near misses of ::1 and ::ffff:127.0.0.1) on the 3 listeners x fill bytes in the local-only build; section 3: an account whose password member is one of 13 forms (complete hash, '*', '!', empty, 'x', salts without hash, DES salt, hash cut / extended by one character, upper-cased hash, libcrypt failure tokens) x 8 offered passwords (the real one, a guess, empty, '*', '*0', '*1', the stored member itself, 'x') x 3 transports: success iff crypt(offered, stored) equals the stored member, a refused attempt grants neither get, fetch nor set; non-trivial = all runs",
+    .rule = "section 0: credential file with 6 users (group sets over g1..g3, auth objects that omit keys, an admin, a user without groups); 15 elements declaring fetch/set/call groups {none, g1, g2, g1+g2, mixed fetch/set, g3, an undefined group, fetch only, call only}; every sequence up to the depth bound of 10 authenticate actions (right, wrong password, another user's password, unknown user, six users) x 3 transports x 5 fill bytes of fresh heap memory x {probe suite only at the end, also before the last action}; probe suite = fetch all + get all + the owner adding / changing / removing four further elements while the fetch is active + set every state + call every method, each with and without a request id; oracle: everything delivered / routed is covered by the groups of the last successful authentication (none if there was none), wrong credentials are refused, sequences with failing attempts grant exactly what the twin without them grants, password markers occur in no output byte and no log line; section 1: files with 30..33 groups x user group x element group over {0,1,15,29,30,31} x transport (bit 31 and beyond); section 2: add from 16 connection origins (incl. five IPv6 near misses of ::1 and ::ffff:127.0.0.1) on the 3 listeners x fill bytes in the local-only build; section 3: an account whose password member is one of 13 forms (complete hash, '*', '!', empty, 'x', salts without hash, DES salt, hash cut / extended by one character, upper-cased hash, libcrypt failure tokens) x 8 offered passwords (the real one, a guess, empty, '*', '*0', '*1', the stored member itself, 'x') x 3 transports: success iff crypt(offered, stored) equals the stored member, a refused attempt grants neither get, fetch nor set; non-trivial = all runs",
     .assumptions = "only the safety direction of the statement is judged (a grant must be covered by a group); denied accesses are counted, not judged|a credential file with more than 32 groups may be refused at start-up",
 };
